@@ -17,6 +17,7 @@ import (
 	sctxpkg "github.com/xuperchain/xupercore/bcs/ledger/xledger/state/context"
 	txn "github.com/xuperchain/xupercore/bcs/ledger/xledger/tx"
 	pb "github.com/xuperchain/xupercore/bcs/ledger/xledger/xldgpb"
+	"github.com/xuperchain/xupercore/kernel/common/xaddress"
 	xconf "github.com/xuperchain/xupercore/kernel/common/xconfig"
 	"github.com/xuperchain/xupercore/kernel/contract"
 	_ "github.com/xuperchain/xupercore/kernel/contract/kernel"
@@ -24,9 +25,11 @@ import (
 	governToken "github.com/xuperchain/xupercore/kernel/contract/proposal/govern_token"
 	"github.com/xuperchain/xupercore/kernel/contract/proposal/propose"
 	timerTask "github.com/xuperchain/xupercore/kernel/contract/proposal/timer"
+	"github.com/xuperchain/xupercore/kernel/engines/xuperos"
 	"github.com/xuperchain/xupercore/kernel/engines/xuperos/agent"
 	"github.com/xuperchain/xupercore/kernel/engines/xuperos/common"
 	engconf "github.com/xuperchain/xupercore/kernel/engines/xuperos/config"
+	"github.com/xuperchain/xupercore/kernel/engines/xuperos/miner"
 	"github.com/xuperchain/xupercore/kernel/permission/acl"
 	actx "github.com/xuperchain/xupercore/kernel/permission/acl/context"
 	"github.com/xuperchain/xupercore/lib/logs"
@@ -116,6 +119,8 @@ type Node struct {
 	State    *state.State
 	Contract contract.Manager
 	Ctx      *common.ChainCtx
+	Chain    *xuperos.Chain // real PreExec / SubmitTx (verif hook constructor)
+	Miner    *miner.Miner   // real packBlock (verif hook)
 	Genesis  []byte
 	Root     *pb.InternalBlock
 	closed   bool
@@ -263,8 +268,15 @@ func (n *Node) openState() error {
 	cctx.TimerTask = tm
 	st.SetTimerTaskMG(tm)
 	RegisterVerifContracts(mg)
+	mk := Ring[MinerKey]
+	cctx.Address = &xaddress.Address{Address: mk.Address, PrivateKey: mk.Priv, PrivateKeyStr: mk.PrvJSON, PublicKey: &mk.Priv.PublicKey, PublicKeyStr: mk.PubJSON}
+	n.Chain = xuperos.VerifNewChain(cctx)
+	n.Miner = miner.NewMiner(cctx)
 	return nil
 }
+
+// MinerKey is the ring index of the node's own miner address (never used as a payer by generators).
+const MinerKey = 7
 
 // Close closes both databases (the world's storages stay, so the node can be reopened).
 func (n *Node) Close() {
